@@ -247,8 +247,8 @@ def run(ctx):
     q = ctx.quick
     may_die = {"allow_fail": True}          # a dying recorder is an observation: see crashed_sessions
     jobs = [("c16", ["--mode", "gen", "--in", h], "gen%d.ndjson" % i, may_die) for i, (h, _) in enumerate(hists)]
-    nrand, writes = (300, 60) if q else (6000, 60)
-    per = 100 if q else 375
+    nrand, writes = (300, 60) if q else (4000, 60)
+    per = 100 if q else 250
     for i in range(nrand // per):
         jobs.append(("c16", ["--mode", "random", "--n", per, "--writes", writes, "--stream", i], "rand%02d.ndjson" % i, may_die))
     paths = ctx.record_many(jobs, parallel=8)
